@@ -60,7 +60,27 @@ def structures(tier, seed):
            {"sid": "lemmas", "part": "lemmas"},
            {"sid": "wrapper;interp_1d_conservative", "part": "wrapper"},
            {"sid": "xarray;conservative_interpolation+transform", "part": "xarray"}]
+    if tier == "thorough":
+        out.append({"sid": "lean;finite-sum-facts", "part": "lean"})
     return out
+
+
+def run_lean(s):
+    """Lean 4 + Mathlib check of the finite-sum facts used as lemma schemata (exchange of sums, telescoping, prefix recurrence)"""
+    import os
+    import subprocess
+    import time
+    path = os.path.join(os.path.dirname(os.path.dirname(os.path.abspath(__file__))), "lean", "SumFacts.lean")
+    t = time.time()
+    try:
+        r = subprocess.run(["lean", path], capture_output=True, text=True, timeout=3000)
+        ok = r.returncode == 0 and "error" not in (r.stdout + r.stderr)
+        detail = (r.stdout + r.stderr)[-400:]
+        status = "proved" if ok else ("failed" if "error" in (r.stdout + r.stderr) else "unknown")
+    except Exception as e:  # noqa
+        status, detail = "unknown", f"{type(e).__name__}: {e}"
+    obs = [{"fn": "lean/SumFacts.lean", "clause": "sum_exchange,telescope,prefix_step,accumulate_linear,diff_cumsum", "status": status, "time": time.time() - t, "detail": detail or "accepted by lean 4 + Mathlib"}]
+    return {"sid": s["sid"], "obligations": obs, "paths": 0, "queries": 1, "solver_time": time.time() - t, "engine_errors": [], "covers": {}}
 
 
 def side_conditions():
@@ -451,7 +471,7 @@ def run_xarray(s):
 
 
 def run_structure(s):
-    return {"kernel": run_kernel, "lemmas": run_lemmas, "wrapper": run_wrapper, "xarray": run_xarray}[s["part"]](s)
+    return {"kernel": run_kernel, "lemmas": run_lemmas, "wrapper": run_wrapper, "xarray": run_xarray, "lean": run_lean}[s["part"]](s)
 
 
 REQUIRED_COVERS = ["store", "no-store", "lemmas", "returned", "raised"]
